@@ -808,7 +808,11 @@ impl World {
                                 // how far the script got is judged by the state it left behind
                             Some(Err(_)) => format!("err ; {}", keys_of(g)),
                             None => {
-                                self.hs.insert(a, HS::Dead);
+                                if self.soak {
+                                    self.soaked.insert(a);
+                                } else {
+                                    self.hs.insert(a, HS::Dead);
+                                }
                                 "panic".into()
                             }
                         }
